@@ -3,7 +3,7 @@
  * This product includes software developed at Datadog (https://www.datadoghq.com/). Copyright 2022 Datadog, Inc.
  **/
 use swc_common::{util::take::Take, Span};
-use swc_ecma_ast::ExprOrSpread;
+use swc_ecma_ast::{ExprOrSpread, Ident};
 use swc_ecma_visit::swc_ecma_ast::{BinaryOp, Expr};
 
 use crate::visitor::ident_provider::{IdentKind, IdentProvider};
@@ -101,6 +101,12 @@ pub trait OperandHandler {
                             ident_provider,
                             ExpandArrays::No,
                         )
+                    } else {
+                        // a hole is passed as undefined: keep its position in the hook arguments
+                        arguments.push(ExprOrSpread::from(Expr::Ident(Ident::new_no_ctxt(
+                            "undefined".into(),
+                            *span,
+                        ))))
                     }
                 })
             }
